@@ -1,1 +1,59 @@
-From DV Require Import Prelude.Base Model.Wire Model.Framing.
+(* C05 — stream framing is chunking-invariant, ordered, exactly-once, always progresses.
+   `decodable` abstracts "Message.from_bytes(frame) does not raise"; all statements hold for
+   every such predicate. *)
+From DV Require Import Prelude.Base Model.Wire Model.Framing Proofs.FramingP.
+
+(* for ANY list of well-formed frames (header length field = frame size >= 20) and ANY way of
+   cutting their concatenation into network reads (cuts inside the header, reads spanning several
+   frames, empty reads): exactly the decodable frames are delivered, in stream order, each once;
+   nothing is left in the buffer; the connection stays open *)
+Theorem C05_chunking : forall decodable frames chunks,
+  Forall wf_frame frames -> List.concat chunks = List.concat frames ->
+  let r := feed_all decodable reader0 chunks in
+  r_delivered r = expected decodable frames /\ r_buf r = [] /\ r_closed r = false /\ r_spin r = false.
+Proof. exact FramingP.C05_chunking. Qed.
+
+(* an undecodable frame is skipped without affecting the frames behind (or before) it *)
+Theorem C05_skip_undecodable : forall decodable fs1 bad fs2 chunks,
+  Forall wf_frame (fs1 ++ bad :: fs2) -> decodable bad = false ->
+  List.concat chunks = List.concat (fs1 ++ bad :: fs2) ->
+  let r := feed_all decodable reader0 chunks in
+  r_delivered r = expected decodable (fs1 ++ fs2) /\ r_buf r = [] /\ r_closed r = false /\ r_spin r = false.
+Proof. exact FramingP.C05_skip_undecodable. Qed.
+
+(* NO buffer content, whatever its length field says, makes the loop spin *)
+Theorem C05_progress : forall decodable buf acc,
+  let '(buf', acc', st) := rloop decodable (S (List.length buf)) buf acc in st <> Spin.
+Proof. exact rloop_progress. Qed.
+Theorem C05_never_spins : forall decodable chunks, r_spin (feed_all decodable reader0 chunks) = false.
+Proof. exact feed_all_never_spins. Qed.
+
+(* after any input the reader has closed the connection, or waits for more bytes with less than
+   a header, or less than the announced frame, in its buffer *)
+Theorem C05_trichotomy : forall decodable chunks,
+  let r := feed_all decodable reader0 chunks in
+  r_closed r = true \/
+  (r_spin r = false /\
+   (blen (r_buf r) < 20 \/ exists h x, dec_hdr (r_buf r) = Ok (h, x) /\ blen (r_buf r) < h_length h)).
+Proof. exact feed_trichotomy. Qed.
+
+(* the loop as it was before the repair (fixed in /repo): both defects, with witnesses *)
+Theorem C05_old_loop_spins_refuted :
+  exists buf, let '(_, _, st) := rloop_old (fun _ => true) (S (List.length buf)) buf [] in st = Spin.
+Proof. exact rloop_old_spins_refuted. Qed.
+Theorem C05_old_loop_cut_dependent_refuted :
+  exists dec bad good c1 c2,
+    wf_frame bad /\ wf_frame good /\ dec bad = false /\ dec good = true /\
+    let s := bad ++ good in
+    let ra := feed_all_old dec reader0 [firstn c1 s; skipn c1 s] in
+    let rb := feed_all_old dec reader0 [firstn c2 s; skipn c2 s] in
+    r_delivered ra <> r_delivered rb /\ r_closed ra <> r_closed rb.
+Proof. exact feed_old_cut_dependent_refuted. Qed.
+
+Print Assumptions C05_chunking.
+Print Assumptions C05_skip_undecodable.
+Print Assumptions C05_progress.
+Print Assumptions C05_never_spins.
+Print Assumptions C05_trichotomy.
+Print Assumptions C05_old_loop_spins_refuted.
+Print Assumptions C05_old_loop_cut_dependent_refuted.
